@@ -185,18 +185,27 @@ example :
 /-! ### history level: a segmented message amid arbitrary other traffic -/
 
 open SmppVerif.Lemmas.History SmppVerif.Lemmas.SegHistory in
-/-- LEDGER, segmented messages, AT MOST ONCE.  `M` is a message the library split into `n` segments
-    (reference `r`, log id `L`, pairwise distinct sequence numbers).  Take any history from the empty
-    state into which the n segment requests are woven in order (`Weave`): between and after them any
-    other requests are stored (other numbers, other log ids, other references), any responses are
-    handled — to M's segments in any order, accepted, rejected, nacked, of the wrong type, duplicated,
-    or never — and inbound deliver_sm are handled, all at arbitrary times, so that any subset of
-    M's segments may time out in any sweep.  Then the application sees at most one outcome carrying
-    `L`: the sweep that times out the last open segment, the response that answers it, or the sweep
-    inside that very response handling — never two of them.  (Reference reuse is excluded by the
-    hypothesis on other traffic: it is the known finding `ref_reuse_misattributes`.) -/
-theorem segmented_message_at_most_once (M : SegMsg) (w : M.WF) (ttlR ttlD : Nat) (ops : List Op)
-    (hw : Weave M 1 ops) : (runOps M.L (initState ttlR ttlD) ops).2 ≤ 1 :=
+/-- LEDGER, segmented messages.  `M` is a message the library split into `n` segments (reference `r`,
+    log id `L`, pairwise distinct sequence numbers).  Take any history from the empty state into
+    which the n segment requests are woven in order (`Weave`): between and after them any other
+    requests are stored (other numbers, other log ids, other references), any responses are handled —
+    to M's segments in any order, accepted, rejected, nacked, of the wrong type, duplicated, or
+    never — and inbound deliver_sm are handled, all at arbitrary times, so that any subset of M's
+    segments may time out in any sweep.  Then
+    (1) the application sees AT MOST ONE outcome carrying `L` — the sweep that times out the last
+        open segment, the response that answers it, or the sweep inside that very response
+        handling, never two of them; and
+    (2) EXACTLY ONE, if at the end of the history none of M's segment requests is outstanding in the
+        correlator (each was answered or swept after its time-to-live) and every response that
+        carried one of M's numbers was a submit_sm_resp or a generic_nack.
+    Reference reuse is excluded by the hypothesis on other traffic (known finding
+    `ref_reuse_misattributes`), wrong-type responses by the hypothesis of (2) (known finding
+    `wrong_type_loses_outcome`); delivery receipts are C02's subject. -/
+theorem segmented_message_exactly_once (M : SegMsg) (w : M.WF) (ttlR ttlD : Nat) (ops : List Op)
+    (hw : Weave M 1 ops) :
+    (runOps M.L (initState ttlR ttlD) ops).2 ≤ 1 ∧
+    ((∀ op ∈ ops, GoodS M op) → AllGone M (runOps M.L (initState ttlR ttlD) ops).1 →
+      (runOps M.L (initState ttlR ttlD) ops).2 = 1) :=
   seg_ledger M w ttlR ttlD ops hw
 
 namespace Example
@@ -239,8 +248,19 @@ theorem weave : Weave M 1 ops := by
   · subst h; exact ⟨notSeq 60 (Or.inr (by decide)), by decide, fun h => absurd h (by decide)⟩
   · cases hop
 
-/-- … and exactly one outcome is counted (the theorem says at most one). -/
-theorem count : (runOps 7 (initState 1000 100000) ops).2 = 1 := by decide +kernel
+/-- … responses have proper types, no segment is outstanding at the end, and one outcome is counted. -/
+theorem good : ∀ op ∈ ops, GoodS M op := by
+  intro op hop
+  cases op with
+  | resp now r' => intro _; simp only [ops, tail, List.cons_append, List.nil_append, List.mem_cons, Op.resp.injEq,
+      List.not_mem_nil, or_false, reduceCtorEq, false_or] at hop; rcases hop with ⟨_, h⟩ | ⟨_, h⟩ | ⟨_, h⟩ <;> (rw [h]; exact Or.inl rfl)
+  | put _ _ => trivial
+  | deliver _ _ => trivial
+
+theorem count : (runOps 7 (initState 1000 100000) ops).2 = 1 ∧
+    aget (runOps 7 (initState 1000 100000) ops).1.store 11 = none ∧
+    aget (runOps 7 (initState 1000 100000) ops).1.store 12 = none ∧
+    aget (runOps 7 (initState 1000 100000) ops).1.store 13 = none := by decide +kernel
 
 end Example
 
@@ -300,5 +320,5 @@ end SmppVerif.Props.C01
 #print axioms SmppVerif.Props.C01.wrong_type_loses_outcome
 #print axioms SmppVerif.Props.C01.plain_message_exactly_once
 #print axioms SmppVerif.Props.C01.no_outcome_for_unknown_log_id
-#print axioms SmppVerif.Props.C01.segmented_message_at_most_once
+#print axioms SmppVerif.Props.C01.segmented_message_exactly_once
 #print axioms SmppVerif.Props.C01.Example.weave
